@@ -4,7 +4,7 @@
    store_metadata.go and appends at most one event.  Reference side: the transition table of
    DESIGN.md appendix A ([table]) and the attribute rule ([ref_attrs]). *)
 From Coq Require Import List NArith Bool.
-From Wesh Require Import Model.MetaLog Proofs.MetaLog Model.C07_Contacts Proofs.C07_Contacts.
+From Wesh Require Import Model.MetaLog Proofs.MetaLog Model.C07_Contacts Proofs.C07_Contacts GenFacts.ContactsFacts.
 Import ListNotations.
 Open Scope N_scope.
 
@@ -65,6 +65,17 @@ Theorem C07_indexed_state_defined :
   forall own l pk c, g_contact (apply_log own l) pk = Some c -> c_state c <> CUndef.
 Proof. exact apply_log_state_defined. Qed.
 
+(* the guards the model runs are the guards of the CURRENT source: the table generated from
+   store_metadata.go on every run decides like [op_event] in all 49 (operation, state) pairs, and
+   the format / own-key tests are where the model has them *)
+Theorem C07_source_guards :
+  forallb (fun k => forallb (fun st => verdict_eqb (source_verdict k st) (model_verdict k st)) all_states) all_kinds = true /\
+  G.pre_checks = [(G.KEnq, (true, false, true)); (G.KSent, (false, false, false)); (G.KRecv, (false, true, true));
+                  (G.KDisc, (false, false, false)); (G.KAcc, (false, false, false)); (G.KBlock, (false, false, true));
+                  (G.KUnblock, (false, false, false))].
+Proof. exact (conj source_guards_are_the_model_guards source_pre_checks). Qed.
+
+Print Assumptions C07_source_guards.
 Print Assumptions C07_lifecycle_refines.
 Print Assumptions C07_replica_replays.
 Print Assumptions C07_refused_appends_nothing.
